@@ -177,7 +177,16 @@ func (it *symstrIter) next() tuple {
 	if it.i >= len(it.s) {
 		return []value{false, nil, nil}
 	}
-	r, w := decodeRuneSym(it.s, it.i)
+	// decode with the real unicode/utf8 source, interpreted on the symbolic bytes
+	var r value
+	var w int
+	if b, ok := it.s[it.i].(uint8); ok && b < 0x80 {
+		r, w = int32(b), 1
+	} else {
+		fn := theInterp.prog.ImportedPackage("unicode/utf8").Func("DecodeRuneInString")
+		res := call(theInterp, curFr, token.NoPos, fn, []value{normStr(it.s[it.i:])}).(tuple)
+		r, w = res[0], int(asInt64(concInt(res[1])))
+	}
 	k := it.i
 	it.i += w
 	return []value{true, k, r}
